@@ -123,6 +123,18 @@ void sim_yield(YKind k) {
     if (++R.steps > R.step_budget) sim_die(98, "step budget exceeded (livelock or hang)");
     int y = t->yord++;
     if (R.tasks.size() < 2) return;
+    if (k == Y_CALL) {
+        R.call_yields++;
+        for (auto* o : R.tasks) if (o->st == T_BLOCKED && o->parked_until >= 0 && R.call_yields >= o->parked_until) { o->st = T_RUNNABLE; o->parked_until = -1; o->waiting_on = nullptr; }
+    }
+    for (auto& pk : R.parks) if (pk.tid == t->tid && pk.op == t->cur_op && pk.y == y) {
+        bool other = false; for (auto* o : R.tasks) if (o != t && o->st == T_RUNNABLE) other = true;
+        if (!other) break;
+        R.switches[0]++; hist_hash_only("park");
+        t->parked_until = R.call_yields + pk.n;
+        sim_block_on(&R.parks, "park");
+        return;
+    }
     if (R.guided) {
         int to = guided_lookup(t, y);
         if (to >= 0 && to != t->tid && to < (int)R.tasks.size() && R.tasks[to]->st == T_RUNNABLE) {
@@ -150,6 +162,10 @@ static Task* pick_forced(Task* t) {
     std::vector<Task*> cand;
     bool alldone = true;
     for (auto* o : R.tasks) { if (o->st == T_RUNNABLE && o != t) cand.push_back(o); if (o->st != T_DONE) alldone = false; }
+    if (cand.empty()) {
+        // nobody else can run: parked tasks come back early
+        for (auto* o : R.tasks) if (o != t && o->st == T_BLOCKED && o->parked_until >= 0) { o->st = T_RUNNABLE; o->parked_until = -1; o->waiting_on = nullptr; cand.push_back(o); }
+    }
     if (cand.empty()) {
         if (alldone) return nullptr;
         // deadlock: every unfinished task is blocked
